@@ -7,25 +7,59 @@ From RQ Require Import Base Apply Parser Quilt WriterProofs QuiltProofs ParserWf
 Local Open Scope N_scope.
 Local Notation length := List.length (only parsing).
 
-Definition safe (k : bytes) : Prop := is_unsafe k = false.
-Definition names_ok (fp : pfilepatch) : Prop := forall n, pf_old fp = Some n \/ pf_new fp = Some n -> safe n.
-Definition ov_ok (ov : overlay) : Prop := forall k m, In (k, m) ov -> safe k.
+Definition inside (k : bytes) : Prop := has_dotdot k = false /\ (forall r, k <> 47 :: r).
+
+(* a key of the overlay: below the working directory, and in canonical spelling *)
+Definition safe (k : bytes) : Prop := inside k /\ canon k = k.
+Definition names_ok (fp : pfilepatch) : Prop := forall n, kold fp = Some n \/ knew fp = Some n -> safe n.
+Definition ov_ok (ov : overlay) : Prop := (forall k m, In (k, m) ov -> safe k) /\ NoDup (map fst ov).
 Definition status_ok (s : status) : Prop := safe (st_target s) /\ safe (st_final s) /\ names_ok (st_fp s).
 Definition st_ok (st : astate) : Prop := ov_ok (a_files st) /\ Forall status_ok (a_applied st).
 
+Lemma canon_safe r : is_unsafe r = false -> safe (canon r).
+Proof.
+  intros H. destruct (safe_name_stays_inside r H) as [Hd _]. split; [split|apply canon_idem].
+  - rewrite has_dotdot_canon. exact Hd.
+  - intros x. apply canon_not_absolute.
+Qed.
+
 Lemma unsafe_fp_names fp : unsafe_fp fp = false -> names_ok fp.
 Proof.
-  unfold unsafe_fp, names_ok, safe. intros H n [Hn|Hn]; rewrite Hn in H; apply orb_false_iff in H; tauto.
+  unfold unsafe_fp, names_ok, kold, knew. intros H n Hn. apply orb_false_iff in H. destruct H as [Ho Hw].
+  destruct Hn as [Hn|Hn].
+  - destruct (pf_old fp) as [r|]; [|discriminate]. injection Hn as <-. apply canon_safe. exact Ho.
+  - destruct (pf_new fp) as [r|]; [|discriminate]. injection Hn as <-. apply canon_safe. exact Hw.
+Qed.
+
+Lemma NoDup_app_one {A} (l : list A) x : NoDup l -> ~ In x l -> NoDup (l ++ [x]).
+Proof.
+  induction l as [|y l IH]; intros Hnd Hni; cbn [app]; [constructor; [intros []|constructor]|].
+  inversion Hnd as [|? ? Hy Hl]; subst. constructor.
+  - intros Hin. apply in_app_or in Hin. destruct Hin as [Hin|[<-|[]]]; [contradiction|]. apply Hni. left. reflexivity.
+  - apply IH; [assumption|]. intros Hin. apply Hni. right. assumption.
+Qed.
+
+Lemma ov_set_keys k m : forall ov,
+  map fst (ov_set k m ov) = if existsb (bytes_eqb k) (map fst ov) then map fst ov else map fst ov ++ [k].
+Proof.
+  induction ov as [|[q x] r IH]; cbn [ov_set map fst existsb]; [reflexivity|].
+  destruct (bytes_eqb k q) eqn:E; cbn [orb map fst]; [reflexivity|]. rewrite IH.
+  destruct (existsb (bytes_eqb k) (map fst r)); reflexivity.
 Qed.
 
 Lemma ov_set_ok k m : forall ov, ov_ok ov -> safe k -> ov_ok (ov_set k m ov).
 Proof.
-  induction ov as [|[q x] r IH]; intros Hov Hk; cbn [ov_set].
-  - intros k' m' [[= <- <-]|[]]. assumption.
-  - destruct (bytes_eqb k q) eqn:E.
-    + intros k' m' [[= <- <-]|Hin]; [eapply Hov; left; reflexivity|eapply Hov; right; eassumption].
-    + intros k' m' [[= <- <-]|Hin]; [eapply Hov; left; reflexivity|].
-      eapply IH; [|assumption|eassumption]. intros a c Hac. eapply Hov. right. eassumption.
+  intros ov [Hov Hnd] Hk. split.
+  - clear Hnd. induction ov as [|[q x] r IH]; cbn [ov_set].
+    + intros k' m' [[= <- <-]|[]]. assumption.
+    + destruct (bytes_eqb k q) eqn:E.
+      * intros k' m' [[= <- <-]|Hin]; [eapply Hov; left; reflexivity|eapply Hov; right; eassumption].
+      * intros k' m' [[= <- <-]|Hin]; [eapply Hov; left; reflexivity|].
+        eapply IH; [|eassumption]. intros a c Hac. eapply Hov. right. eassumption.
+  - rewrite ov_set_keys. destruct (existsb (bytes_eqb k) (map fst ov)) eqn:E; [assumption|].
+    apply NoDup_app_one; [assumption|]. intros Hin.
+    assert (existsb (bytes_eqb k) (map fst ov) = true) by (apply existsb_exists; exists k; split; [assumption|apply bytes_eqb_eq; reflexivity]).
+    congruence.
 Qed.
 
 Lemma get_or_load_ok fs ov k m ov' : get_or_load fs ov k = ROk (m, ov') -> ov_ok ov -> safe k -> ov_ok ov'.
@@ -35,9 +69,9 @@ Proof.
   destruct (fs_read fs (normalize k)) as [f|[]]; try discriminate; intros [= <- <-] Hov Hk; apply ov_set_ok; assumption.
 Qed.
 
-Lemma choose_filename_in fs ov fp t : choose_filename fs ov fp = ROk t -> pf_old fp = Some t \/ pf_new fp = Some t.
+Lemma choose_filename_in fs ov fp t : choose_filename fs ov fp = ROk t -> kold fp = Some t \/ knew fp = Some t.
 Proof.
-  unfold choose_filename. destruct (pf_old fp) as [o|], (pf_new fp) as [n|]; try discriminate.
+  unfold choose_filename. destruct (kold fp) as [o|], (knew fp) as [n|]; try discriminate.
   - destruct (bytes_eqb o n); [intros [= <-]; auto|].
     destruct (ov_get o ov) as [m|].
     + destruct (deleted m); intros [= <-]; auto.
@@ -55,7 +89,7 @@ Proof.
   destruct (get_or_load fs (a_files st) target) as [[file ov1]| |] eqn:El; cbn [rbind] in H; try discriminate.
   pose proof (get_or_load_ok _ _ _ _ _ El Hov Ht) as Hov1.
   destruct (pf_rename fp).
-  - destruct (pf_new fp) as [newname|] eqn:En; [|discriminate].
+  - destruct (knew fp) as [newname|] eqn:En; [|discriminate].
     assert (Hnn : safe newname) by (apply Hn; auto).
     destruct (move_out file) as [stay tmp].
     destruct (get_or_load fs (ov_set target stay ov1) newname) as [[newfile ov3]| |] eqn:El2; cbn [rbind] in H; try discriminate.
@@ -64,7 +98,7 @@ Proof.
     + destruct (lift (apply_l1 (to_fpatch fp) nf _ F)) as [[nf' rep]| |]; cbn [rbind] in H; try discriminate.
       injection H as _ <-. split; cbn [a_files a_applied].
       * apply ov_set_ok; assumption.
-      * constructor; [|assumption]. repeat split; assumption.
+      * constructor; [|assumption]. split; [exact Ht|split; [exact Hnn|exact Hn]].
     + destruct (get_or_load fs ov3 target) as [[tfile ov4]| |] eqn:El3; cbn [rbind] in H; try discriminate.
       pose proof (get_or_load_ok _ _ _ _ _ El3 Hov3 Ht) as Hov4.
       injection H as _ <-. split; cbn [a_files a_applied]; [|assumption].
@@ -72,7 +106,7 @@ Proof.
   - destruct (lift (apply_l1 (to_fpatch fp) file _ F)) as [[f' rep]| |]; cbn [rbind] in H; try discriminate.
     injection H as _ <-. split; cbn [a_files a_applied].
     + apply ov_set_ok; assumption.
-    + constructor; [|assumption]. repeat split; assumption.
+    + constructor; [|assumption]. split; [exact Ht|split; [exact Ht|exact Hn]].
 Qed.
 
 Lemma apply_file_patches_ok fs index sp F : forall fps st af failed st',
@@ -130,10 +164,8 @@ Proof.
   apply bytes_eqb_eq in E. apply (f_equal (@List.length N)) in E. rewrite app_length in E. cbn in E. lia.
 Qed.
 
-Definition inside (k : bytes) : Prop := has_dotdot k = false /\ (forall r, k <> 47 :: r).
-
 Lemma safe_inside k : safe k -> inside k.
-Proof. apply safe_name_stays_inside. Qed.
+Proof. intros [H _]. exact H. Qed.
 
 Lemma rej_name_inside t : safe t -> inside (rej_name t).
 Proof.
@@ -222,12 +254,28 @@ Proof.
       destruct (mop_err _ _ _ _ _ H) as [x Hx]. congruence.
 Qed.
 
-Theorem save_all_err dm : forall ov cl fs fs' e, ov_ok ov -> save_all dm ov cl fs = (fs', RErr e) -> e = ESave.
+Lemma save_all_err_aux dm : forall ov cl fs fs' e, (forall k m, In (k, m) ov -> safe k) ->
+  save_all dm ov cl fs = (fs', RErr e) -> e = ESave.
 Proof.
   induction ov as [|[k m] r IH]; intros cl fs fs' e Hov; cbn [save_all]; [discriminate|].
   unfold mbind. destruct (save_modified_file dm k m cl fs) as [fs1 [cl'|e1|]] eqn:E; try discriminate.
   - apply IH. intros a c Hac. eapply Hov. right. eassumption.
   - intros [= _ <-]. eapply save_modified_file_err; [|eassumption]. eapply Hov. left. reflexivity.
+Qed.
+
+Theorem save_all_err dm ov cl fs fs' e : ov_ok ov -> save_all dm ov cl fs = (fs', RErr e) -> e = ESave.
+Proof. intros [H _]. apply save_all_err_aux. exact H. Qed.
+
+(* different keys of the overlay are different files *)
+Theorem keys_are_different_files ov : ov_ok ov -> NoDup (map (fun e => normalize (fst e)) ov).
+Proof.
+  intros [Hs Hnd]. induction ov as [|[k m] r IH]; [constructor|].
+  cbn [map fst] in *. inversion Hnd as [|? ? Hni Hnd']; subst. constructor.
+  - intros Hin. apply in_map_iff in Hin. destruct Hin as ([k2 m2] & Heq & Hin2). cbn [fst] in Heq.
+    assert (k2 = k).
+    { apply canon_injective; [apply (Hs k2 m2); right; assumption|apply (Hs k m); left; reflexivity|exact Heq]. }
+    subst k2. apply Hni. apply in_map_iff. exists (k, m2). auto.
+  - apply IH; [|assumption]. intros a c Hac. apply (Hs a c). right. assumption.
 Qed.
 
 Theorem save_rej_files_err dm : forall rejs fs fs' e, Forall (fun r => inside (fst r)) rejs ->
